@@ -95,6 +95,42 @@ theorem bitmatrix_flipAll_flipAll (m : SMat) : m.flipAll.flipAll = m := by
     rw [this, List.map_id]
   rw [this, List.map_id]
 
+/-- Flip on a matrix cell is an involution (every x, y — out of range the model leaves the grid alone) -/
+theorem bitmatrix_flip_flip (m : SMat) (x y : Nat) : (m.flip x y).flip x y = m := by
+  obtain ⟨w, h, rows⟩ := m
+  simp only [SMat.flip]
+  congr 1
+  induction rows generalizing y with
+  | nil => simp
+  | cons r rs ih =>
+    cases y with
+    | zero =>
+      simp only [List.modify_zero_cons, List.cons.injEq, and_true]
+      exact bitarray_flip_flip r x
+    | succ y => simp only [List.modify_succ_cons, List.cons.injEq, true_and]; exact ih y
+
+/-- Get after Set on a matrix: the set cell reads true, every other cell is unchanged (cell inside a well-formed grid) -/
+theorem bitmatrix_get_set (m : SMat) (hm : m.WF) (x y x' y' : Nat) (hx : x < m.width) (hy : y < m.height) :
+    (m.set x y).get x' y' = if x' = x ∧ y' = y then true else m.get x' y' := by
+  obtain ⟨w, h, rows⟩ := m
+  obtain ⟨h1, h2⟩ := hm
+  simp only at h1 h2 hx hy
+  simp only [SMat.get, SMat.set]
+  have hyl : y < rows.length := by omega
+  by_cases hyy : y' = y
+  · subst hyy
+    have hr : (rows[y']).length = w := h2 _ (List.getElem_mem hyl)
+    simp only [List.getElem?_modify, if_true, List.getElem?_eq_getElem hyl, Option.map_eq_map, Option.map_some, Option.getD_some]
+    by_cases hxx : x' = x
+    · subst hxx; simp [hr, hx]
+    · simp only [hxx, false_and, if_false]
+      rw [List.getElem?_set_ne (by omega)]
+  · have : ¬ (x' = x ∧ y' = y) := fun c => hyy c.2
+    simp only [this, if_false]
+    rw [List.getElem?_modify]
+    have : ¬ y = y' := fun c => hyy c.symm
+    simp [this]
+
 example : (SArr.xor [true, false, true] [true, true, false]).bind (fun r => SArr.xor r [true, true, false])
     = .ok [true, false, true] := by decide
 
